@@ -164,6 +164,17 @@ func (g *cgraph) defineLen(x ssa.Value, depth int) {
 				g.defineElemLen(r.X, lt)
 			}
 		}
+	case *ssa.Lookup:
+		// rows of a map field that is only ever given make([]T, L) values: len is L once the key is known to be
+		// present (the ensure-present idiom: if _, ok := m[k]; !ok { m[k] = make(…) } … m[k])
+		if !v.CommaOk {
+			if L, ok := a.mapFieldRowLen(v.X); ok {
+				g.le(lt, zeroTerm, L)
+				if ensuredPresent(a, v) {
+					g.le(zeroTerm, lt, -L)
+				}
+			}
+		}
 	case *ssa.UnOp:
 		if v.Op == token.MUL {
 			if n := g.growCellLenLo(v); n > 0 {
@@ -181,6 +192,11 @@ func (g *cgraph) defineLen(x ssa.Value, depth int) {
 			}
 		}
 	case *ssa.Phi:
+		if L, ok := a.ensuredRowPhi(v); ok {
+			g.le(lt, zeroTerm, L)
+			g.le(zeroTerm, lt, -L)
+			return
+		}
 		// lower bound: min over the edges that are not grown from the phi itself by append.
 		// Edge values of a loop-carried phi belong to the previous iteration: they are bounded in
 		// a separate graph (definitional facts only) so that no relation between same-named
@@ -648,3 +664,165 @@ func (a *NilAnalysis) globalLen(gl *ssa.Global) (int64, bool) {
 }
 
 var _ = strings.HasPrefix
+
+// mapFieldRowLen: m is loaded from a struct field T.f of map type with slice values, and every update of a map
+// loaded from T.f anywhere in the library stores make([]E, L) with one constant L (the map is created empty).
+func (a *NilAnalysis) mapFieldRowLen(m ssa.Value) (int64, bool) {
+	t, f, _ := loadedField(m)
+
+	if f == "" {
+		return 0, false
+	}
+	L, n := int64(-1), 0
+	for _, fn := range a.p.LibFns {
+		for _, b := range fn.Blocks {
+			for _, ins := range b.Instrs {
+				mu, ok := ins.(*ssa.MapUpdate)
+				if !ok {
+					continue
+				}
+				t2, f2, _ := loadedField(mu.Map)
+				if t2 != t || f2 != f {
+					// a map of the same type reached some other way could alias the field: refuse
+					if types.Identical(mu.Map.Type(), m.Type()) {
+						return 0, false
+					}
+					continue
+				}
+				c, ok := freshSliceLen(mu.Value)
+				if !ok || (L >= 0 && c != L) {
+					return 0, false
+				}
+				L = c
+				n++
+			}
+		}
+	}
+	return L, n > 0
+}
+
+// ensuredPresent: lk = m[k] is dominated by the ensure-present idiom on the same map location and the same key
+// value: a comma-ok lookup whose !ok branch stores m[k] and rejoins, with no delete in the function.
+func ensuredPresent(a *NilAnalysis, lk *ssa.Lookup) bool {
+	fn := lk.Parent()
+	if hasDelete(fn) {
+		return false
+	}
+	mkey := a.key(lk.X)
+	for _, b := range fn.Blocks {
+		for _, ins := range b.Instrs {
+			c, ok := ins.(*ssa.Lookup)
+			if !ok || !c.CommaOk || c.Index != lk.Index || a.key(c.X) != mkey {
+				continue
+			}
+			if !(b.Dominates(lk.Block())) {
+				continue
+			}
+			iff, ok := b.Instrs[len(b.Instrs)-1].(*ssa.If)
+			if !ok {
+				continue
+			}
+			ex, ok := iff.Cond.(*ssa.Extract)
+			neg := false
+			if !ok {
+				if u, isNot := iff.Cond.(*ssa.UnOp); isNot && u.Op == token.NOT {
+					ex, ok = u.X.(*ssa.Extract)
+					neg = true
+				}
+			}
+			if !ok || ex.Tuple != ssa.Value(c) || ex.Index != 1 {
+				continue
+			}
+			missing := b.Succs[1] // !ok
+			if neg {
+				missing = b.Succs[0]
+			}
+			stores := false
+			for _, i2 := range missing.Instrs {
+				if mu, ok := i2.(*ssa.MapUpdate); ok && mu.Key == lk.Index && a.key(mu.Map) == mkey {
+					stores = true
+				}
+			}
+			if !stores || len(missing.Succs) != 1 {
+				continue
+			}
+			join := missing.Succs[0]
+			if join == lk.Block() || join.Dominates(lk.Block()) {
+				return true
+			}
+		}
+	}
+	return false
+}
+
+// ensuredRowPhi: row, ok := m[k]; if !ok { row = make([]T, L); … }  – the merge of the looked-up row (arriving on
+// the ok edge, where the key is present) and a fresh row of the length every row of that map field has.
+func (a *NilAnalysis) ensuredRowPhi(ph *ssa.Phi) (int64, bool) {
+	if len(ph.Edges) != 2 {
+		return 0, false
+	}
+	for k := 0; k < 2; k++ {
+		ex, ok := ph.Edges[k].(*ssa.Extract)
+		if !ok || ex.Index != 0 {
+			continue
+		}
+		lk, ok := ex.Tuple.(*ssa.Lookup)
+		if !ok || !lk.CommaOk {
+			continue
+		}
+		L, ok := a.mapFieldRowLen(lk.X)
+		if !ok {
+			return 0, false
+		}
+		if c, ok := freshSliceLen(ph.Edges[1-k]); !ok || c != L {
+			return 0, false
+		}
+		// the looked-up value arrives on the ok edge: its predecessor is the block testing ok, with the merge as the
+		// true successor (or the false one under a negation)
+		pred := ph.Block().Preds[k]
+		iff, ok := pred.Instrs[len(pred.Instrs)-1].(*ssa.If)
+		if !ok {
+			return 0, false
+		}
+		cond, neg := iff.Cond, false
+		if u, isNot := cond.(*ssa.UnOp); isNot && u.Op == token.NOT {
+			cond, neg = u.X, true
+		}
+		okx, isEx := cond.(*ssa.Extract)
+		if !isEx || okx.Tuple != ssa.Value(lk) || okx.Index != 1 {
+			return 0, false
+		}
+		want := 0
+		if neg {
+			want = 1
+		}
+		if pred.Succs[want] != ph.Block() {
+			return 0, false
+		}
+		return L, true
+	}
+	return 0, false
+}
+
+// freshSliceLen: v is make([]T, L) with a constant L (go/ssa: a MakeSlice, or new [L]T sliced whole).
+func freshSliceLen(v ssa.Value) (int64, bool) {
+	switch x := v.(type) {
+	case *ssa.MakeSlice:
+		return constInt(x.Len)
+	case *ssa.Slice:
+		if x.Low != nil {
+			return 0, false
+		}
+		if al, ok := x.X.(*ssa.Alloc); ok && al.Heap {
+			if at, ok := al.Type().Underlying().(*types.Pointer).Elem().Underlying().(*types.Array); ok {
+				if x.High == nil {
+					return at.Len(), true
+				}
+				if h, ok := constInt(x.High); ok && h >= 0 && h <= at.Len() {
+					return h, true
+				}
+			}
+		}
+	}
+	return 0, false
+}
